@@ -3,9 +3,44 @@ LEAN_TARGETS = ["QmcProps.C10", "drv_c10"]
 BINS = ["c10"]
 
 THEOREMS = [
+    "relWeight_eq_product",
+    "canSwap_symm",
+    "relWeightGeneric_eq_product",
+    "generic_canSwap_imp_hamEq",
+    "pSwap_evaluated",
+    "hamEq_shortcut_sound",
+    "hamEq_imp_canSwap",
+    "swapProb_exact",
+    "accept_grid",
+    "unequal_cutoffs_break_ratio",
+    "swap_pair_spec",
+    "swap_exchanges_only_config",
+    "equalisation_keeps_ops",
+    "cutoffs_equal_after_step",
+    "swap_counter_exact",
+    "decisions_are_threshold_tests",
+    "step_pairs",
+    "pairs_disjoint",
+    "swap_uniforms_pre_drawn",
+    "parallel_step_eq_serial",
+    "one_replica_steps",
+    "cache_valid_after_step",
+    "cache_valid_after_add",
+    "old_canSwap_accepts_different_graphs",
+    "canSwap_same_shape",
 ]
 
-RULE = ("tbd")
+RULE = ("ising/generic: ladders of 0..8 real replicas (QmcIsingGraph / Qmc, 2-4 spins, random graphs with multi-edges, dyadic "
+        "J of both signs, Gamma, h, beta; beta / J / Gamma / h / mixed ladders and ladders with repeated neighbours so that "
+        "ham_eq pairs and evaluated pairs mix; heat-bath on some) advanced to equilibrium with unequal cutoffs, then 2-3 "
+        "tempering steps each driven by a recorded script; per step: exact after-state (cutoffs, states, operator strings, "
+        "frame digest of every non-moving field), total_swaps, decision log from the delegation spy (which pairs, "
+        "evaluated or ham_eq shortcut, both relative weights), every pair's swap probability and the order draw measured "
+        "by bisection of the script word, unwrapped-container and rayon re-runs on the same words. pairs: can_swap_graphs / "
+        "ham_eq / relative_weight called directly on equal, sign-flipped, other-graph, other-magnitude pairs (Ising) and "
+        "equal / perturbed interaction lists (generic, incl. the 0 and infinity branches). mismatch: ladders whose graphs "
+        "differ in edge count must be refused (regression for F14). Non-trivial = at least one rejected or evaluated decision "
+        "(steps) / both strings non-empty (pairs); distinct = distinct full case text.")
 
 
 def main(ck):
@@ -15,4 +50,7 @@ def main(ck):
         for mode in ["ising", "generic", "pairs", "mismatch"]:
             cases = ck.harness("c10", [mode])
             ck.correspond(mode, "drv_c10", cases)
+        ck.extra_trusted.append("Spy delegation wrapper in harness/src/bin/c10.rs (each case is re-run on an unwrapped container and must end in the same state)")
+        ck.assumptions.append("swapProb_exact: both strings legal for their own Hamiltonian (C07), beta > 0, Hamiltonians well formed (nvars derived from the edges) and accepted by can_swap_managers; equal cutoffs are established by the step itself (cutoffs_equal_after_step)")
+        ck.assumptions.append("probability = threshold/2^52 of a uniform 52-bit grid draw (accept_grid); f64 rounding of division/powi absorbed by the 1e-9 tolerance")
     return ck.finish(RULE)
